@@ -204,6 +204,9 @@ def run_frontend(case):
         if case[ax] is not None:
             dv[ax] = (("time",), _vals(case[ax]))
     coords = {"time": _times(case)} if has_t else {}
+    if case.get("orphan"):
+        # a variable on ANOTHER dimension (a profile next to the time series): no time / depth / position belongs to it
+        dv[case["orphan"]["name"]] = (("odim",), _vals(case["orphan"]["vals"]))
     ds = xr.Dataset(dv, coords=coords)
     if fe == "xarray":
         return list(XarrayStream(ds).run(cfg))
@@ -513,8 +516,18 @@ def fault_isolation_failures(case):
     # which entries produced a result, per context (yield order = context order, then call order)
     produced = set()
     it = iter(res)
+    orphan = (case.get("orphan") or {}).get("name")
     for ci, c in enumerate(grouped_cfg(case["cfg"])):
         for ei, e in enumerate(c["entries"]):
+            if e["kind"] == "call" and e["stream"] == orphan:
+                # the variable exists, but the stream has no time / depth for it: the test needs one and cannot run
+                r = next(it, None)
+                if r is not None and len(r.results) != 0:
+                    fails.append({"kind": "predicate", "function": "stream_run+collect", "case": case,
+                                  "impl": core.canon_flags(r.results[0].results),
+                                  "clause": "a test whose required time / depth input the stream does not supply for "
+                                            "its variable produced a result"})
+                continue
             if e["kind"] != "call" or e["stream"] not in [n for n, _ in case["cols"]]:
                 continue
             r = next(it, None)
@@ -587,6 +600,101 @@ def direct_call_failures(case):
                               "impl": {"flags": got, "mask": gmask}, "direct": {"flags": want, "mask": m},
                               "clause": "flags differ from the test called directly on the window rows"})
                 return fails
+    return fails
+
+
+def gen_orphan_cases(tier, rng):
+    """xarray datasets that also hold a variable on another dimension (shorter than the time series), configured
+    - after healthy entries of the same context - with a probe that REQUIRES time or depth: it cannot run"""
+    out = []
+    base = [c for c in gen_stream(tier, rng, frontends=("xarray",), faults=True, wforms=False)
+            if c["time"] is not None and c["z"] is not None and c["n"] >= 2 and not xarray_deviates(c)]
+    for c in base:
+        import copy
+        d = copy.deepcopy(c)
+        m = rng.randint(1, c["n"] - 1)
+        d["orphan"] = {"name": "vorph", "vals": [core.fr(F(rng.randint(-64, 64), 64)) for _ in range(m)]}
+        placed = False
+        for ctx in d["cfg"]:
+            if any(e["kind"] == "call" and e["stream"] != "nope" for e in ctx["entries"]) or not placed:
+                pos = rng.randint(1, len(ctx["entries"])) if ctx["entries"] else 0
+                ctx["entries"].insert(pos, {"kind": "call", "stream": "vorph",
+                                            "test": rng.choice(["probe_needs_z", "probe_needs_t"]),
+                                            "p": rng.randint(0, 4), "fault": 0})
+                # entries of one stream stay together (a config is a mapping stream -> tests)
+                order = []
+                for e in ctx["entries"]:
+                    if e["stream"] not in order:
+                        order.append(e["stream"])
+                ctx["entries"] = [e for s_ in order for e in ctx["entries"] if e["stream"] == s_]
+                placed = True
+        out.append(d)
+    return out
+
+
+def collected_rows_failures(case):
+    """C06 end to end on the implementation: run a front end, collect both forms, and compare, row by row,
+    with the flags the probe gives when called directly on each context's window rows and put back on those
+    rows (later contexts overwrite earlier ones; rows no context covers: masked / UNKNOWN)"""
+    import logging
+    import warnings
+
+    import fn_collect as fc
+    from ioos_qc.results import collect_results
+
+    logging.disable(logging.CRITICAL)
+    try:
+        with warnings.catch_warnings():
+            warnings.simplefilter("ignore")
+            res = run_frontend(case)
+            lst = collect_results(res, how="list")
+            dct = collect_results(res, how="dict")
+    except Exception as e:  # noqa: BLE001
+        return [{"kind": "predicate", "function": "stream_run+collect", "case": case, "impl": core.canon_exc(e),
+                 "clause": "running and collecting raised"}]
+    n = case["n"]
+    names = [nm for nm, _ in case["cols"]]
+    cols = dict((nm, v) for nm, v in case["cols"])
+    want = {}
+    for c in grouped_cfg(case["cfg"]):
+        if case["time"] is None:
+            m = [True] * n
+        else:
+            m = [(c["start"] is None or c["start"] <= t) and (c["end"] is None or t < c["end"]) for t in case["time"]]
+        sel = [i for i, b in enumerate(m) if b]
+        for e in c["entries"]:
+            if e["kind"] != "call" or e["stream"] not in names:
+                continue
+            kw = {"inp": _vals([cols[e["stream"]][i] for i in sel])}
+            if case["time"] is not None:
+                kw["tinp"] = _times({"time": [case["time"][i] for i in sel]})
+            for ax, name in (("z", "zinp"), ("lon", "lon"), ("lat", "lat")):
+                if case[ax] is not None:
+                    kw[name] = _vals([case[ax][i] for i in sel])
+            try:
+                cf = core.canon_flags(PROBES[e["test"]][0](p=e["p"], fault=e["fault"], **kw))
+            except Exception:  # noqa: BLE001
+                continue                        # a test that cannot run contributes nothing
+            if not cf.startswith("F:"):
+                continue
+            fl = [x for x in cf[2:].split(",") if x != ""]
+            row = want.setdefault((e["stream"], "qartod", e["test"]), ["M"] * n)
+            for i, f in zip(sel, fl):
+                row[i] = f
+    got_l = {(cr.stream_id, cr.package, cr.test): fc._canon_arr(cr.results, "f") for cr in lst}
+    got_d = {(sid, pk, t): fc._canon_arr(a, "f") for sid, pks in dct.items() for pk, ts in pks.items() for t, a in ts.items()}
+    norm = lambda r: [x if x in ("M", None) else str(int(F(x))) for x in r]
+    want_l = {k: norm(v) for k, v in want.items()}
+    want_d = {k: ["2" if x == "M" else x for x in v] for k, v in want_l.items()}
+    fails = []
+    if {k: norm(v) for k, v in got_l.items()} != want_l:
+        fails.append({"kind": "predicate", "function": "stream_run+collect", "case": case,
+                      "impl": {str(k): v for k, v in got_l.items()}, "expected": {str(k): v for k, v in want_l.items()},
+                      "clause": "list form: collected flags are not the directly computed flags on the window rows"})
+    elif {k: norm(v) for k, v in got_d.items()} != want_d:
+        fails.append({"kind": "predicate", "function": "stream_run+collect", "case": case,
+                      "impl": {str(k): v for k, v in got_d.items()}, "expected": {str(k): v for k, v in want_d.items()},
+                      "clause": "dict form: collected flags are not the directly computed flags on the window rows"})
     return fails
 
 
